@@ -23,10 +23,28 @@ fn main() {
     let mut begins = 0;
     let mut ends = 0;
     let mut h = Sha512::new();
-    let (mut ni, mut nl, mut ns, mut nm) = (0u64, 0u64, 0u64, 0u64);
-    // lines of the region are buffered so that the END marker's own lines can be dropped
-    let mut pending: Vec<String> = Vec::new();
-    let mut pending_store_idx: Vec<usize> = Vec::new(); // indices in `pending` of the last stores
+    // Lines of the region are hashed as they arrive, except a short tail: the END marker is recognised only after its
+    // seventh store, and its own lines (from its first store on) must not be hashed.  So only the lines from the
+    // oldest of the last seven stores onwards are held back; everything older can never belong to the END marker.
+    let mut pending: std::collections::VecDeque<String> = std::collections::VecDeque::new();
+    let mut base: u64 = 0; // absolute index (within the region) of pending[0]
+    let mut next_abs: u64 = 0;
+    let mut store_abs: Vec<u64> = Vec::new(); // absolute indices of the last stores (at most 7)
+    let mut account = |l: &str, h: &mut Sha512, dump: &mut Option<std::io::BufWriter<std::fs::File>>, c: &mut (u64, u64, u64, u64)| {
+        let k = l.as_bytes();
+        match if k[0] == b'I' { b'I' } else { k[1] } {
+            b'I' => c.0 += 1,
+            b'L' => c.1 += 1,
+            b'S' => c.2 += 1,
+            _ => c.3 += 1,
+        }
+        h.update(l.as_bytes());
+        h.update(b"\n");
+        if let Some(d) = dump.as_mut() {
+            let _ = writeln!(d, "{}", l);
+        }
+    };
+    let mut counts = (0u64, 0u64, 0u64, 0u64);
     for line in rd.lines() {
         let line = match line {
             Ok(l) => l,
@@ -42,7 +60,8 @@ fn main() {
         }
         let size: u8 = line.rsplit(',').next().and_then(|s| s.trim().parse().ok()).unwrap_or(0);
         if in_region {
-            pending.push(line.clone());
+            pending.push_back(line.clone());
+            next_abs += 1;
         }
         if kind == b'S' {
             recent.push(size);
@@ -50,9 +69,9 @@ fn main() {
                 recent.remove(0);
             }
             if in_region {
-                pending_store_idx.push(pending.len() - 1);
-                if pending_store_idx.len() > 7 {
-                    pending_store_idx.remove(0);
+                store_abs.push(next_abs - 1);
+                if store_abs.len() > 7 {
+                    store_abs.remove(0);
                 }
             }
             if !in_region && recent == BEGIN {
@@ -60,35 +79,32 @@ fn main() {
                 begins += 1;
                 recent.clear();
                 pending.clear();
-                pending_store_idx.clear();
+                store_abs.clear();
+                base = 0;
+                next_abs = 0;
             } else if in_region && recent == END {
                 ends += 1;
                 in_region = false;
                 // drop everything from the first store of the END marker on
-                let cut = pending_store_idx[0];
-                pending.truncate(cut);
-                for l in &pending {
-                    let k = l.as_bytes();
-                    match if k[0] == b'I' { b'I' } else { k[1] } {
-                        b'I' => ni += 1,
-                        b'L' => nl += 1,
-                        b'S' => ns += 1,
-                        _ => nm += 1,
-                    }
-                    h.update(l.as_bytes());
-                    h.update(b"\n");
-                    if let Some(d) = dump.as_mut() {
-                        let _ = writeln!(d, "{}", l);
-                    }
+                let cut = store_abs[0];
+                while base < cut {
+                    let l = pending.pop_front().expect("held-back line");
+                    account(&l, &mut h, &mut dump, &mut counts);
+                    base += 1;
                 }
                 pending.clear();
                 recent.clear();
+            } else if in_region && store_abs.len() == 7 {
+                // flush what can no longer be part of an END marker
+                while base < store_abs[0] {
+                    let l = pending.pop_front().expect("held-back line");
+                    account(&l, &mut h, &mut dump, &mut counts);
+                    base += 1;
+                }
             }
-        } else if in_region && pending.len() > 50_000_000 {
-            eprintln!("region too large");
-            std::process::exit(3);
         }
     }
+    let (ni, nl, ns, nm) = counts;
     if begins != 1 || ends != 1 {
         eprintln!("markers: {} begin, {} end", begins, ends);
         std::process::exit(3);
